@@ -94,7 +94,7 @@ func replay(cw *caseWriter, path string) {
 			c18exec(cw, tag, comp, in)
 		case 1011:
 			c11race(cw, tag, in[0])
-		case 1001, 1002, 1003, 1004, 1005, 1006, 1007, 1008, 1009, 1010, 1012, 1013, 1014, 1016, 1017, 1019:
+		case 1001, 1002, 1003, 1004, 1005, 1006, 1007, 1008, 1009, 1010, 1012, 1013, 1014, 1016, 1017, 1019, 1020:
 			res := runScenario(int(in[0]), in[1])
 			cw.emit(tag, comp, in, []uint64{uint64(res.events), uint64(res.leaders), uint64(res.acks), uint64(res.crashes), uint64(len(res.findings))}, true)
 			for _, f := range res.findings {
@@ -217,7 +217,7 @@ func main() {
 		fmt.Println(c.monitor())
 	case "demo":
 		t0 := time.Now()
-		runScenarios(cw, 19, seed, 12, 6)
+		runScenarios(cw, 20, seed, 12, 6)
 		fmt.Println("elapsed", time.Since(t0))
 	default:
 		fmt.Fprintln(os.Stderr, "unknown component", comp)
